@@ -33,6 +33,8 @@ class Closure:
 
 class KindInterp(DictInterp):
     functions: Dict[str, Any] = {}        # name -> ast.FunctionDef of module-level functions that may be called (recursion included)
+    host: Dict[str, Any] = {}             # dotted name -> host callable standing for a library function (torch.cat, itertools.accumulate, ..)
+    records: Dict[str, Any] = {}          # class name -> collections.namedtuple type for NamedTuple / namedtuple classes of the module
     depth = 0
 
     def ev(self, e):
@@ -56,6 +58,22 @@ class KindInterp(DictInterp):
             if isinstance(l_, int) and isinstance(r_, int):
                 return l_ * r_
             raise Unsupported(ast.unparse(e)[:60])
+        if isinstance(e, ast.Attribute) and not ast.unparse(e) in self.env:
+            try:
+                v_ = self.ev(e.value)
+            except Unsupported:
+                v_ = None
+            if isinstance(v_, tuple) and hasattr(v_, "_fields") and e.attr in v_._fields:
+                return getattr(v_, e.attr)
+        if isinstance(e, ast.Subscript):
+            try:
+                base_ = self.ev(e.value)
+            except Unsupported:
+                base_ = None
+            if isinstance(base_, AObj) and "__getitem__" in base_.methods:
+                return base_.methods["__getitem__"](self.ev(e.slice))
+        if isinstance(e, ast.Constant) and e.value is Ellipsis:
+            return Ellipsis
         if isinstance(e, ast.Lambda):
             return Closure([a.arg for a in e.args.args], e.body, self.env, True)
         if isinstance(e, ast.Constant) and isinstance(e.value, str):
@@ -130,6 +148,8 @@ class KindInterp(DictInterp):
                 recv = None
             if isinstance(recv, AObj) and c.func.attr in recv.methods:
                 return recv.methods[c.func.attr](*[self.ev(a) for a in c.args])
+            if c.func.attr in getattr(recv, "_xv_methods", ()):
+                return getattr(recv, c.func.attr)(*[self.ev(a) for a in c.args])
         if fn == "zip" and len(c.args) == 1 and isinstance(c.args[0], ast.Starred) and not c.keywords:
             v = self.ev(c.args[0].value)
             if isinstance(v, (list, tuple)) and all(isinstance(x, (list, tuple)) for x in v):
@@ -156,12 +176,16 @@ class KindInterp(DictInterp):
             if len(env) != len(ps):
                 raise Unsupported("missing arguments of %s" % fn)
             sub = type(self)(env)
-            sub.functions, sub.depth = self.functions, self.depth + 1
+            sub.functions, sub.depth, sub.host, sub.records = self.functions, self.depth + 1, self.host, self.records
             try:
                 sub.run(fnode.body)
             except _Return as r:
                 return r.v
             return None
+        if fn in self.host and not any(isinstance(a, ast.Starred) for a in c.args):
+            return self.host[fn](*[self.ev(a) for a in c.args], **{k.arg: self.ev(k.value) for k in c.keywords if k.arg})
+        if isinstance(c.func, ast.Name) and fn in self.records and not any(isinstance(a, ast.Starred) for a in c.args):
+            return self.records[fn](*[self.ev(a) for a in c.args], **{k.arg: self.ev(k.value) for k in c.keywords if k.arg})
         last = fn.split(".")[-1]
         if isinstance(c.func, ast.Name) and type(self.env.get(fn)).__name__ in ("function", "builtin_function_or_method") and not c.keywords:
             return self.env[fn](*[self.ev(a) for a in c.args])        # a host stand-in for a collaborator whose contract another rule decides
@@ -207,3 +231,24 @@ def outcome(fnode: ast.FunctionDef, env: Dict[str, Any]) -> Tuple[str, Any]:
     except Raised as e:
         return "raised", str(e)
     return "returned", None
+
+
+def module_records(tree: ast.Module) -> Dict[str, Any]:
+    """namedtuple types for the `class X(NamedTuple): a: int; b: ..` and `X = namedtuple("X", [...])` definitions of a module"""
+    import collections
+    out = {}
+    for st in tree.body:
+        if isinstance(st, ast.ClassDef) and any(ast.unparse(b).split(".")[-1] == "NamedTuple" for b in st.bases):
+            fields = [x.target.id for x in st.body if isinstance(x, ast.AnnAssign) and isinstance(x.target, ast.Name)]
+            defaults = [x for x in st.body if isinstance(x, ast.AnnAssign) and x.value is not None]
+            if fields and not defaults:
+                out[st.name] = collections.namedtuple(st.name, fields)
+        elif isinstance(st, ast.Assign) and len(st.targets) == 1 and isinstance(st.targets[0], ast.Name) and isinstance(st.value, ast.Call) \
+                and ast.unparse(st.value.func).split(".")[-1] == "namedtuple" and len(st.value.args) == 2:
+            try:
+                spec = ast.literal_eval(st.value.args[1])
+                fields = spec.replace(",", " ").split() if isinstance(spec, str) else list(spec)
+                out[st.targets[0].id] = collections.namedtuple(st.targets[0].id, fields)
+            except Exception:
+                pass
+    return out
